@@ -250,5 +250,83 @@ func main() {
 		res.Eval(fmt.Sprintf("%d/%x/%x/%x", cid, X, Y, Z), nontrivial)
 		res.Sample(rep)
 	}
+	// (P) only, no model twin: a comparer that is lawful as a total PREORDER but not injective and whose
+	// Separator/Successor SHORTEN to a key comparing EQUAL to the argument (trailing-NUL padding ignored).
+	// iComparer must refuse such answers (strictly greater is required), otherwise shortened+keyMaxNum
+	// sorts BEFORE a (C15_isep_law_pre / C15_isucc_law_pre).  Runs after the main loop so that the main
+	// cases' random draws are unchanged.
+	for i := 0; i < n/4; i++ {
+		uc := trimNul{}
+		x, y := gen(), gen()
+		x.u = append(append([]byte{}, x.u...), make([]byte, r.Intn(3))...)
+		if r.Chance(1, 3) {
+			y.u = append(append([]byte{}, trimNulOf(x.u)...), make([]byte, r.Intn(3))...)
+		} else {
+			y.u = append(append([]byte{}, y.u...), make([]byte, r.Intn(3))...)
+		}
+		X, Y := x.enc(), y.enc()
+		cxy, cyx := leveldb.VerifICompare(uc, X, Y), leveldb.VerifICompare(uc, Y, X)
+		rep := map[string]interface{}{"cmp": "trimNul", "x": hex.EncodeToString(X), "y": hex.EncodeToString(Y)}
+		if sign(cxy) != -sign(cyx) {
+			res.Violate(fmt.Sprintf("antisymmetry (trimNul): cmp(x,y)=%d cmp(y,x)=%d", cxy, cyx), rep)
+		}
+		exp := sign(uc.Compare(x.u, y.u))
+		if exp == 0 {
+			nx, ny := x.seq<<8|uint64(x.kind), y.seq<<8|uint64(y.kind)
+			if nx > ny {
+				exp = -1
+			} else if nx < ny {
+				exp = 1
+			}
+			res.Count("trimnul_same_class", 1)
+		}
+		if sign(cxy) != exp {
+			res.Violate(fmt.Sprintf("order (trimNul): cmp(x,y)=%d, expected %d", cxy, exp), rep)
+		}
+		A, B := X, Y
+		if cxy > 0 {
+			A, B = Y, X
+		}
+		if cxy != 0 {
+			if s := leveldb.VerifISeparator(uc, A, B); s != nil {
+				res.Count("trimnul_separator_accepted", 1)
+				if len(s) < 8 || !(leveldb.VerifICompare(uc, A, s) <= 0 && leveldb.VerifICompare(uc, s, B) < 0) {
+					res.Violate(fmt.Sprintf("separator law a <= sep < b fails (trimNul, user separator equal to a): sep=%x", s), rep)
+				}
+			} else if ua := A[:len(A)-8]; len(trimNulOf(ua)) < len(ua) {
+				res.Count("trimnul_separator_equal_refused", 1)
+			}
+		}
+		if su := leveldb.VerifISuccessor(uc, X); su != nil {
+			res.Count("trimnul_successor_accepted", 1)
+			if len(su) < 8 || !(leveldb.VerifICompare(uc, X, su) <= 0) {
+				res.Violate(fmt.Sprintf("successor law b <= succ fails (trimNul): succ=%x", su), rep)
+			}
+		} else if len(trimNulOf(x.u)) < len(x.u) {
+			res.Count("trimnul_successor_equal_refused", 1)
+		}
+	}
 	res.WriteCases("From GL Require Import Corr.C15Run.", "c15case", "mismatches", cases, 16)
+}
+
+// trimNul orders keys bytewise after dropping trailing 0x00 bytes; Separator/Successor return the trimmed
+// spelling (shorter, comparing Eq to the argument), which the comparer contract allows (a <= x < b, b <= x).
+type trimNul struct{}
+
+func trimNulOf(a []byte) []byte { return bytes.TrimRight(a, "\x00") }
+func (trimNul) Name() string    { return "verif.TrimNul" }
+func (trimNul) Compare(a, b []byte) int {
+	return bytes.Compare(trimNulOf(a), trimNulOf(b))
+}
+func (t trimNul) Separator(dst, a, b []byte) []byte {
+	if ta := trimNulOf(a); len(ta) < len(a) && t.Compare(a, b) < 0 {
+		return append(dst, ta...)
+	}
+	return nil
+}
+func (trimNul) Successor(dst, b []byte) []byte {
+	if tb := trimNulOf(b); len(tb) < len(b) {
+		return append(dst, tb...)
+	}
+	return nil
 }
